@@ -36,6 +36,10 @@ Fixpoint join (sep : string) (l : list string) : string :=
   | x :: r => x ++ sep ++ join sep r
   end%string.
 
+(* ---- Python slices s[:-1] and s[n:] ---- *)
+Definition drop_last (s : string) : string := of_chars (removelast (chars s)).
+Definition str_skip (n : nat) (s : string) : string := of_chars (skipn n (chars s)).
+
 (* ---- decimal rendering of integers (Python "%d" % n, str(n)); 40 digits of fuel: exact below 10^40 ---- *)
 Open Scope Z_scope.
 Definition zstr_digit (n : Z) : ascii := ascii_of_nat (48 + Z.to_nat n).
